@@ -1578,7 +1578,13 @@ fn c14_case<M: Mk>(rng: &mut Rng, ev: &mut Ev) -> R<Outcome> {
     let mut junk_slots = Vec::new();
     for _ in 0..junk {
         let marked_junk = rng.chance(1, 2);
-        junk_slots.push(src.create(How::Builder { marked: marked_junk }, &Val::empty(), ev));
+        // (lazily marked junk deleted before the maintain: the queued `mark` then meets a dead handle)
+        let how = match rng.below(4) {
+            0 => How::Lazy,
+            1 => How::Res,
+            _ => How::Builder { marked: marked_junk },
+        };
+        junk_slots.push(src.create(how, &Val::empty(), ev));
     }
     for s in junk_slots {
         if rng.chance(1, 2) {
@@ -1607,6 +1613,11 @@ fn c14_case<M: Mk>(rng: &mut Rng, ev: &mut Ev) -> R<Outcome> {
             How::Builder { marked: false }
         };
         slot_of.push(src.create(how, &Val::empty(), ev));
+    }
+    if rng.chance(1, 3) {
+        // the application refreshes its marker allocator before marking more entities
+        src.maintain(ev);
+        src.alloc_maintain(ev);
     }
     for i in mark_later {
         src.mark(slot_of[i], "C14", ev)?;
